@@ -6,7 +6,8 @@
    [file_ok d]: d is a list of bytes shorter than 2^64. *)
 From Coq Require Import NArith List Bool.
 From FEC Require Import Generated.FEConsts Generated.FileIndexConsts Base.Bytes Base.Crc32 Base.Scan Base.FEFormat
-  Models.FileScanM Models.FileIndexIOM Proofs.FileScanP Proofs.FileIndexIOP.
+  Models.FastIndexerM Proofs.FastIndexerSpecP Proofs.FastIndexerLegacyP
+  Models.FileScanM Models.FileIndexIOM Models.ExtractLogM Models.SystemLinkM Proofs.FileScanP Proofs.FileIndexIOP Proofs.SystemLinkP.
 Import ListNotations.
 
 (* A saved index, loaded next to the unchanged data file, is accepted and equals the fresh index (when the last
@@ -61,6 +62,35 @@ Theorem C09_open_is_fresh : forall p1 p1i d' ig,
             (o_p1i o = p1i \/ o_p1i o = saved p1 d' \/ (o_p1i o = None /\ file_frames d' = [])).
 Proof. exact open_is_fresh. Qed.
 Print Assumptions C09_open_is_fresh.
+
+(* ---- link to C08: the fresh index IS the fast indexer's output ---------------------------------------------------- *)
+(* Under C08's precondition the index fast_generate_index builds (model fi_generate, any worker count W >= 1), seen as the
+   reader sees it, is [fresh]: same offsets as C08's SPEC frames, same types, same whole-second times. *)
+Theorem C09_fresh_is_fast_index : forall READ MAX : N,
+  (2 <= READ)%N -> (READ mod 2 = 0)%N -> (24 <= MAX)%N -> (MAX <= READ)%N ->
+  forall (ptime : N -> N -> list N -> option (N * N)) W, (1 <= W)%N -> forall file, fi_small_msgs MAX file ->
+  exists es, fi_generate READ MAX fi_cur ptime file W = FOk es /\ map fi_strip es = fresh (p1_of_ptime ptime) file /\
+             map (fun e => N.to_nat (e_off e)) es = map fst (fi_spec_frames file).
+Proof. exact fresh_is_fast_index. Qed.
+Print Assumptions C09_fresh_is_fast_index.
+
+(* Opening a log where re-indexing is done by the fast indexer itself ([open_log_fi], Models/SystemLinkM.v): never raises,
+   returns the frames of C08's SPEC scan of the current data file, leaves an accepted, a freshly saved or no index. *)
+Theorem C09_open_via_fast_index : forall READ MAX : N,
+  (2 <= READ)%N -> (READ mod 2 = 0)%N -> (24 <= MAX)%N -> (MAX <= READ)%N ->
+  forall (ptime : N -> N -> list N -> option (N * N)) W p1i d' ig,
+  (1 <= W)%N -> fi_small_msgs MAX d' -> plausible_index (p1_of_ptime ptime) p1i d' ->
+  exists o, open_log_fi READ MAX ptime W load p1i d' ig = Opened o /\ o_msgs o = fi_spec_frames d' /\
+            (o_p1i o = p1i \/ o_p1i o = saved (p1_of_ptime ptime) d' \/ (o_p1i o = None /\ fi_spec_frames d' = [])).
+Proof. exact open_via_fast_index_full. Qed.
+Print Assumptions C09_open_via_fast_index.
+
+Example C09_via_fast_index_nonvacuous :
+  fi_small_msgs 48 wit_overlap /\ plausible_index (p1_of_ptime no_time) None wit_overlap /\
+  exists o, open_log_fi 64 48 no_time 2 load None wit_overlap false = Opened o /\ length (o_msgs o) = 2%nat.
+Proof.
+  split; [exact wit_overlap_small|]. split; [exact I|]. eexists. split; vm_compute; reflexivity.
+Qed.
 
 (* Non-vacuity: a concrete two-message log with junk meets the hypotheses; its saved index cut after the second
    record is accepted exactly when the data ends with the second message, cut after the first record it is accepted
